@@ -4,6 +4,10 @@ import collections, json, os, sys
 path = sys.argv[1] if len(sys.argv) > 1 else os.path.join(os.path.dirname(os.path.dirname(os.path.abspath(__file__))), "sensitivity", "sweep.jsonl")
 skip = int(sys.argv[2]) if len(sys.argv) > 2 else 0
 rs = [json.loads(l) for l in open(path)]
+last = {}
+for r in rs:
+    last[r.get("key", r["id"])] = r
+rs = list(last.values())
 c = collections.Counter(r["outcome"] for r in rs)
 print(len(rs), dict(c))
 print("detected by:", dict(collections.Counter(r.get("by") for r in rs if r["outcome"] == "detected")))
